@@ -70,6 +70,20 @@ Section Model.
   Definition from_parts_unchecked_with (check_key : bool) (key sig : bytes) (ts : N) (payload : bytes) : res bytes :=
     from_bytes_unchecked_with check_key (key ++ sig ++ be8 ts ++ payload).
 
+  (* from_txt_strings (pkarr.rs:44-89).  [key] = secret_key.public() (32 bytes, a point).
+     [build] is the DNS library's part, supplied as an oracle: None when TXT::add_string refuses a
+     value or Packet::build_bytes_vec_compressed fails (both -> SignedPacketBuildError::DnsError, code 1),
+     Some payload otherwise.  Name::new_unchecked never fails and the built payload is NOT parsed back.
+     [ts] = Timestamp::now(), [sig] = secret_key.sign(signable ts payload): given (64 bytes). *)
+  Definition EB_DNS : N := 1.     (* SignedPacketBuildError::DnsError *)
+  Definition EB_LARGE : N := 2.   (* SignedPacketBuildError::PacketTooLarge *)
+  Definition from_txt_strings (key sig : bytes) (ts : N) (build : option bytes) : res bytes :=
+    match build with
+    | None => Err EB_DNS
+    | Some pl => if PKARR_MAX_DNS_PACKET_SIZE <? len pl then Err EB_LARGE
+                 else Ok (key ++ sig ++ be8 ts ++ pl)
+    end.
+
   Definition FIXED : bool := true.
   Definition from_bytes_unchecked := from_bytes_unchecked_with FIXED.
   Definition from_parts_unchecked := from_parts_unchecked_with FIXED.
@@ -142,6 +156,14 @@ Definition obs_eqb (x y : obs) : bool :=
 (* ---- the instance evaluated by the correspondence check ----
    The harness supplies, per case, the real answers of the three primitives for
    exactly the arguments the constructors can pass them (tables; anything else is false). *)
+(* second case kind: SignedPacket::from_txt_strings(secret, name, values, ttl).  The harness supplies the
+   public key of the secret and the DNS library's answer for the same name/values (computed with simple_dns
+   directly); signature and timestamp of the produced packet are the case's in_sig / in_ts. *)
+Record txt_in := mkTxt {
+  t_key : bytes;             (* secret.public().as_bytes() *)
+  t_build : option bytes     (* None: add_string / build failed; Some payload *)
+}.
+
 Record input := mkIn {
   in_key : bytes;        (* first part given to from_parts_unchecked (any length) *)
   in_sig : bytes;        (* second part (any length) *)
@@ -150,7 +172,8 @@ Record input := mkIn {
   in_key2 : bytes;       (* another PublicKey value (a valid point) for from_relay_payload *)
   in_points : list (bytes * bool);                       (* PublicKey::try_from answers *)
   in_verifs : list (bytes * bytes * bytes * bool);       (* PublicKey::verify answers: key, msg, sig *)
-  in_dns : list (bytes * bool)                           (* Packet::parse answers *)
+  in_dns : list (bytes * bool);                          (* Packet::parse answers *)
+  in_txt : option txt_in                                 (* Some: the case is a from_txt_strings call *)
 }.
 
 Fixpoint look1 (t : list (bytes * bool)) (k : bytes) : bool :=
@@ -174,7 +197,8 @@ Record out := mkOut {
   r_unchecked : res obs;         (* from_bytes_unchecked(all) *)
   r_parts : res obs;             (* from_parts_unchecked(key, sig, ts, payload) *)
   r_relay : option (res obs);    (* from_relay_payload(key, all[32..]) when all[..32] is a PublicKey *)
-  r_relay2 : option (res obs)    (* from_relay_payload(key2, all[32..]) when all has >= 32 bytes *)
+  r_relay2 : option (res obs);   (* from_relay_payload(key2, all[32..]) when all has >= 32 bytes *)
+  r_txt : option (res obs)       (* from_txt_strings(...) for the second case kind *)
 }.
 Definition output := out.
 
@@ -187,6 +211,17 @@ Definition map_res {A B} (f : A -> B) (r : res A) : res B :=
 
 Definition c_observe (i : input) : bytes -> obs := observe (c_is_point i).
 
+Definition model_txt (i : input) (t : txt_in) : res bytes :=
+  from_txt_strings (t_key t) (in_sig i) (in_ts i) (t_build t).
+
+(* the from_txt_strings case is inside the property's quantifier: the key is the key of a SecretKey
+   (a point, 32 bytes) and the signature has 64 bytes *)
+Definition txt_wf (i : input) : bool :=
+  match in_txt i with
+  | Some t => c_is_point i (t_key t) && (len (t_key t) =? 32) && (len (in_sig i) =? 64)
+  | None => false
+  end.
+
 Definition model (i : input) : output :=
   let bs := all_bytes i in
   let ip := c_is_point i in let vf := c_verify i in let dn := c_dns_ok i in
@@ -197,16 +232,30 @@ Definition model (i : input) : output :=
     (if (32 <=? len bs) && ip (key_of bs)
      then Some (map_res (c_observe i) (from_relay_payload ip vf dn (key_of bs) (skipn 32 bs))) else None)
     (if 32 <=? len bs
-     then Some (map_res (c_observe i) (from_relay_payload ip vf dn (in_key2 i) (skipn 32 bs))) else None).
+     then Some (map_res (c_observe i) (from_relay_payload ip vf dn (in_key2 i) (skipn 32 bs))) else None)
+    (match in_txt i with Some t => Some (map_res (c_observe i) (model_txt i t)) | None => None end).
 
 Definition out_eqb (x y : out) : bool :=
   res_eqb obs_eqb (r_from_bytes x) (r_from_bytes y) &&
   res_eqb obs_eqb (r_unchecked x) (r_unchecked y) &&
   res_eqb obs_eqb (r_parts x) (r_parts y) &&
   opt_eqb (res_eqb obs_eqb) (r_relay x) (r_relay y) &&
-  opt_eqb (res_eqb obs_eqb) (r_relay2 x) (r_relay2 y).
+  opt_eqb (res_eqb obs_eqb) (r_relay2 x) (r_relay2 y) &&
+  opt_eqb (res_eqb obs_eqb) (r_txt x) (r_txt y).
 
-Definition agree (i : input) (o : output) : bool := out_eqb (model i) o.
+(* a from_txt_strings case that produced a packet must be well-formed (key of a SecretKey, 64-byte signature)
+   and the signature must verify over the model's signable(timestamp, payload) *)
+Definition agree_txt (i : input) : bool :=
+  match in_txt i with
+  | Some t =>
+      match model_txt i t with
+      | Ok p => txt_wf i && c_verify i (key_of p) (signable (ts_of p) (payload_of p)) (sig_of p)
+      | _ => true
+      end
+  | None => true
+  end.
+
+Definition agree (i : input) (o : output) : bool := out_eqb (model i) o && agree_txt i.
 
 (* The property on observed outputs:
    - a packet accepted by from_bytes has a point key, a verifying signature over
@@ -243,21 +292,33 @@ Definition monitor (i : input) (o : output) : bool :=
   | Some r => negb (len (in_key2 i) =? 32) (* key2 is a PublicKey value: 32 bytes *)
               || accepted_ok i (in_key2 i) (in_key2 i ++ skipn 32 bs) r
   | None => true
+  end &&
+  match r_txt o with
+  | Some r => negb (txt_wf i) || inspect_ok r
+  | None => true
   end.
 
 Definition known (i : input) : N := 0.
 
 (* 0 wrong length / 1 accepted by from_bytes / 2 bad signature / 3 key not a point /
    4 signature fine, payload does not parse / 5 bad signature and payload does not parse /
-   6 (reserved) *)
+   from_txt_strings cases: 6 packet whose payload parses / 7 packet whose payload does NOT parse / 8 Err *)
 Definition tag (i : input) : N :=
   let bs := all_bytes i in
+  match in_txt i with
+  | Some t =>
+      match model_txt i t with
+      | Ok p => if c_dns_ok i (payload_of p) then 6 else 7
+      | _ => 8
+      end
+  | None =>
   if (len bs <? PKARR_HEADER_SIZE) || (PKARR_MAX_SIGNED_PACKET_SIZE <? len bs) then 0
   else if negb (c_is_point i (key_of bs)) then 3
   else
     let v := c_verify i (key_of bs) (signable (ts_of bs) (payload_of bs)) (sig_of bs) in
     let d := c_dns_ok i (payload_of bs) in
-    if v && d then 1 else if d then 2 else if v then 4 else 5.
+    if v && d then 1 else if d then 2 else if v then 4 else 5
+  end.
 
 Definition judge (i : input) (o : output) : bool * bool * N * N :=
   (agree i o, monitor i o, known i, tag i).
